@@ -8,6 +8,8 @@
 #include <signal.h>
 #include <sched.h>
 #include <malloc.h>
+#include <execinfo.h>
+#include <dlfcn.h>
 #include <sys/wait.h>
 #include <sys/stat.h>
 #include <time.h>
@@ -43,8 +45,11 @@ static void child_setup(int wfd, const std::string &errfile) {
 }
 
 static void sig_handler(int sig) {
-    char buf[96];
-    int n = snprintf(buf, sizeof buf, "X {\"signal\":%d}\n", sig);
+    // best effort: name the first frame that is neither the handler nor libc (we are about to die anyway)
+    void *bt[12]; int nb = backtrace(bt, 12); const char *fn = "?";
+    for (int i = 2; i < nb; ++i) { Dl_info di; if (dladdr(bt[i], &di) && di.dli_sname && !strstr(di.dli_sname, "sig_handler") && strncmp(di.dli_sname, "__", 2) && strcmp(di.dli_sname, "raise") && strcmp(di.dli_sname, "abort") && strcmp(di.dli_sname, "gsignal")) { fn = di.dli_sname; break; } }
+    char buf[200];
+    int n = snprintf(buf, sizeof buf, "X {\"signal\":%d,\"fn\":\"%s\"}\n", sig, fn);
     if (sim::result_fd >= 0) { ssize_t w = write(sim::result_fd, buf, (size_t)n); (void)w; }
     _exit(70);
 }
@@ -58,6 +63,47 @@ static void install_signal_handlers() {
 }
 
 static void write_all(int fd, const std::string &s) { size_t o = 0; while (o < s.size()) { ssize_t w = write(fd, s.data() + o, s.size() - o); if (w <= 0) break; o += (size_t)w; } }
+
+// alloc profile: configuration context = allocator requests of the fault-free run and workspace boundaries of a sufficient run
+static void compute_alloc_ctx(const Args &a, GenOpts &go, long chunk) {
+    go.alloc_K = 0; go.bounds.clear(); go.lwork_sufficient = 0;
+    uint64_t first = a.base + (uint64_t)(chunk * a.S);
+    Case c0 = gen_case(a.profile, first, go);
+    RunnerOpts r0; r0.record = false;
+    Outcome o0 = run_case(c0, r0);
+    go.alloc_K = o0.alloc_requests;
+    if (!c0.ops.empty()) {
+        Case c2 = c0; c2.ops[0].kind = OP_GSSVX; c2.ops[0].x.lwork = 16L << 20; c2.ops[0].x.work_align = 0;
+        Outcome o2 = run_case(c2, r0);
+        long mx = 0; std::vector<long> b;
+        for (long m : o2.stack_marks) { if (m > 0) b.push_back(m); mx = std::max(mx, m); }
+        std::sort(b.begin(), b.end()); b.erase(std::unique(b.begin(), b.end()), b.end());
+        if (b.size() > 40) { std::vector<long> b2; for (size_t i = 0; i < 39; ++i) b2.push_back(b[i * b.size() / 40]); b2.push_back(b.back()); b = b2; }
+        go.bounds = b; go.lwork_sufficient = (mx + mx / 4 + 4096) & ~7L;
+    }
+}
+
+// regenerate the case of a seed exactly as a worker would (in a child process: the context runs execute library code)
+static bool regen_case(const Args &a, uint64_t seed, Case &out) {
+    GenOpts go; go.tier = a.tier; go.S = a.S; go.force_prec = a.force_prec; go.index = (long)(seed - a.base);
+    if (a.profile != "alloc") { out = gen_case(a.profile, seed, go); return true; }
+    int pfd[2]; if (pipe(pfd) != 0) return false;
+    pid_t pid = fork();
+    if (pid == 0) {
+        close(pfd[0]);
+        child_setup(-1, "/dev/null");
+        runner_install();
+        compute_alloc_ctx(a, go, go.index / a.S);
+        Case c = gen_case(a.profile, seed, go);
+        write_all(pfd[1], case_to_j(c).dump());
+        _exit(0);
+    }
+    close(pfd[1]);
+    std::string buf; char tmp[65536]; ssize_t n;
+    while ((n = read(pfd[0], tmp, sizeof tmp)) > 0) buf.append(tmp, (size_t)n);
+    close(pfd[0]); int st = 0; waitpid(pid, &st, 0);
+    J j; return J::parse_str(buf, j) && case_from_j(j, out);
+}
 
 // worker: runs seeds base+idx for idx in my chunks, starting at start_idx
 static void pin_to_cpu(int k) {
@@ -74,7 +120,7 @@ static void worker_main(const Args &a, int slot, long start_idx, bool skip_basel
     runner_install();
     install_signal_handlers();
     GenOpts go; go.tier = a.tier; go.S = a.S; go.force_prec = a.force_prec;
-    long base_steps = 0; long base_chunk = -1;
+    long base_steps = 0; long base_chunk = -1; long alloc_ctx_chunk = -1;
     for (long idx = start_idx; idx < a.count; ++idx) {
         long chunk = idx / a.S;
         if (chunk % a.workers != slot) { idx = (chunk + 1) * a.S - 1; continue; }
@@ -82,6 +128,7 @@ static void worker_main(const Args &a, int slot, long start_idx, bool skip_basel
         char hdr[64]; snprintf(hdr, sizeof hdr, "B %llu\n", (unsigned long long)seed);
         write_all(wfd, hdr);
         go.index = idx;
+        if (a.profile == "alloc" && alloc_ctx_chunk != chunk) { compute_alloc_ctx(a, go, chunk); alloc_ctx_chunk = chunk; }
         Case c = gen_case(a.profile, seed, go);
         RunnerOpts ro; ro.record = false;
         bool is_base = (idx % a.S) == 0;
@@ -97,7 +144,7 @@ static void worker_main(const Args &a, int slot, long start_idx, bool skip_basel
 }
 
 // ------------------------------------------------------------------ synthesising results for dead children
-static J synth_crash(uint64_t seed, int status, const std::string &errtext, bool timeout, int sig_from_child, const std::string &tag = "") {
+static J synth_crash(uint64_t seed, int status, const std::string &errtext, bool timeout, int sig_from_child, const std::string &tag = "", const std::string &sigfn = "") {
     J j = J::obj();
     j.set("seed", J((long long)seed));
     J v = J::obj();
@@ -109,7 +156,7 @@ static J synth_crash(uint64_t seed, int status, const std::string &errtext, bool
         std::string type = "unknown", fn = "?";
         size_t p = errtext.find("ERROR: AddressSanitizer: ");
         if (p != std::string::npos) { size_t e = errtext.find_first_of(" \n", p + 25); type = errtext.substr(p + 25, e - (p + 25)); }
-        else if ((p = errtext.find("runtime error: ")) != std::string::npos) { size_t e = errtext.find('\n', p); type = "ubsan:" + errtext.substr(p + 15, std::min<size_t>(40, e - (p + 15))); }
+        else if ((p = errtext.find("runtime error: ")) != std::string::npos) { size_t e = errtext.find('\n', p); type = "ubsan:" + errtext.substr(p + 15, std::min<size_t>(40, e - (p + 15))); size_t hx = type.find("0x"); if (hx != std::string::npos) type.resize(hx); while (!type.empty() && type.back() == ' ') type.pop_back(); }
         size_t q = errtext.find("#0 ");
         for (int k = 0; k < 6 && q != std::string::npos; ++k) {
             size_t in = errtext.find(" in ", q), eol = errtext.find('\n', q);
@@ -126,7 +173,7 @@ static J synth_crash(uint64_t seed, int status, const std::string &errtext, bool
     } else if (sig_from_child || WIFSIGNALED(status) || (WIFEXITED(status) && WEXITSTATUS(status) == 70)) {
         int s = sig_from_child ? sig_from_child : WIFSIGNALED(status) ? WTERMSIG(status) : 0;
         j.set("end", "signal");
-        v.set("p", "C05").set("o", "fatal_signal"); sig = "fatal_signal:" + std::to_string(s); detail = "process killed by signal " + std::to_string(s) + " " + errtext.substr(0, 300);
+        v.set("p", "C05").set("o", "fatal_signal"); sig = "fatal_signal:" + std::to_string(s) + (sigfn.empty() ? "" : ":" + sigfn); detail = "process killed by signal " + std::to_string(s) + " " + errtext.substr(0, 300);
     } else {
         j.set("end", "machinery");
         v.set("p", "MACHINERY").set("o", "child_exit"); sig = "child_exit"; detail = "exit status " + std::to_string(status) + " " + errtext.substr(0, 300);
@@ -166,14 +213,14 @@ J run_forked(const Case &c0, double timeout_s, const std::string &errdir, long b
     }
     close(pfd[0]);
     int status = 0; waitpid(pid, &status, 0);
-    J res; bool got = false; int sigc = 0; std::string tag;
+    J res; bool got = false; int sigc = 0; std::string tag, sigfn;
     std::istringstream is(buf); std::string line;
     while (std::getline(is, line)) {
         if (line.size() > 2 && line[0] == 'T') tag = line.substr(2);
         if (line.size() > 2 && line[0] == 'R' && J::parse_str(line.substr(2), res)) got = true;
-        if (line.size() > 2 && line[0] == 'X') { J x; if (J::parse_str(line.substr(2), x)) sigc = (int)x.num("signal"); }
+        if (line.size() > 2 && line[0] == 'X') { J x; if (J::parse_str(line.substr(2), x)) { sigc = (int)x.num("signal"); sigfn = x.str("fn"); } }
     }
-    if (!got) res = synth_crash(c0.seed, status, slurp(errfile), timeout, sigc, tag);
+    if (!got) res = synth_crash(c0.seed, status, slurp(errfile), timeout, sigc, tag, sigfn);
     unlink(errfile.c_str());
     return res;
 }
@@ -219,7 +266,7 @@ struct Agg {
 static J map_to_j(const std::map<std::string, long> &m) { J o = J::obj(); for (auto &kv : m) o.set(kv.first, J((long long)kv.second)); return o; }
 
 // ------------------------------------------------------------------ batch
-struct Slot { std::string tag; pid_t pid = -1; int fd = -1; std::string buf; bool inflight = false; uint64_t inflight_seed = 0; double since = 0; long next_idx = 0; bool done = false; std::string errfile; int sigc = 0; int restarts = 0; };
+struct Slot { std::string tag, sigfn; pid_t pid = -1; int fd = -1; std::string buf; bool inflight = false; uint64_t inflight_seed = 0; double since = 0; long next_idx = 0; bool done = false; std::string errfile; int sigc = 0; int restarts = 0; };
 
 static int cmd_batch(const Args &a) {
     double t0 = now_s();
@@ -269,12 +316,12 @@ static int cmd_batch(const Args &a) {
                 while ((pos = sl.buf.find('\n')) != std::string::npos) {
                     std::string line = sl.buf.substr(0, pos); sl.buf.erase(0, pos + 1);
                     if (line.size() > 2 && line[0] == 'T') sl.tag = line.substr(2);
-                    else if (line.size() > 2 && line[0] == 'B') { sl.tag.clear(); sl.inflight = true; sl.inflight_seed = strtoull(line.c_str() + 2, nullptr, 10); sl.since = tn; }
+                    else if (line.size() > 2 && line[0] == 'B') { sl.tag.clear(); sl.sigfn.clear(); sl.inflight = true; sl.inflight_seed = strtoull(line.c_str() + 2, nullptr, 10); sl.since = tn; }
                     else if (line.size() > 2 && line[0] == 'R') {
                         J res; if (J::parse_str(line.substr(2), res)) { agg.add(res); }
                         else ++machinery_faults;
                         sl.inflight = false; sl.next_idx = (long)(sl.inflight_seed - a.base) + 1;
-                    } else if (line.size() > 2 && line[0] == 'X') { J x; if (J::parse_str(line.substr(2), x)) sl.sigc = (int)x.num("signal"); }
+                    } else if (line.size() > 2 && line[0] == 'X') { J x; if (J::parse_str(line.substr(2), x)) { sl.sigc = (int)x.num("signal"); sl.sigfn = x.str("fn"); } }
                 }
             }
             bool timeout = sl.inflight && (tn - sl.since > a.timeout_s);
@@ -284,7 +331,7 @@ static int cmd_batch(const Args &a) {
                 close(sl.fd); sl.fd = -1;
                 if (capped) { sl.done = true; continue; }
                 if (sl.inflight) {
-                    J res = synth_crash(sl.inflight_seed, status, slurp(sl.errfile), timeout, sl.sigc, sl.tag);
+                    J res = synth_crash(sl.inflight_seed, status, slurp(sl.errfile), timeout, sl.sigc, sl.tag, sl.sigfn);
                     // attach a sample by regenerating the configuration
                     agg.add(res);
                     sl.inflight = false;
@@ -322,8 +369,8 @@ static int cmd_batch(const Args &a) {
         bool is_known = known.count(vc.prop + ":" + vc.sig) > 0;
         v.set("known", is_known);
         if (!a.no_min && ++nclass <= 60) {
-            go.index = (long)(vc.first_seed - a.base);
-            Case c = gen_case(a.profile, vc.first_seed, go);
+            Case c;
+            if (!regen_case(a, vc.first_seed, c)) { v.set("gate", "fail").set("min_summary", "case could not be regenerated"); ++gate_fail; viols.push(v); continue; }
             MinResult mr = minimise_and_write(c, vc.prop, vc.sig, a.replay_dir, errdir, a.timeout_s, is_known ? 40 : a.max_min_runs, a.flavour);
             v.set("replay", mr.path).set("gate", mr.gate_ok ? "ok" : "fail").set("min_runs", (long long)mr.runs).set("min_summary", mr.summary);
             if (!mr.gate_ok) ++gate_fail;
